@@ -16,7 +16,7 @@ PROPERTY = 'C11'
 LEVEL = 'exploration'
 RULE = ('unique-label cut molecules (as C01) whose base graph gets 1-3 fragment-less nodes attached by order-0 chain edges, '
         'order-0 ring bonds or order-0 branches at first / middle / last position, plus order-0 edges between real nodes; '
-        'all three constructors. Oracle: the fine molecule equals the ground truth and the molecule resolved without the '
+        'all three constructors; order-sensitive polymer strings (several compatible $ on distinguishable atoms) with insertions that keep the written order of the real nodes, compared with the plain string incl. ownership. Oracle: the fine molecule equals the ground truth and the molecule resolved without the '
         'insertions; every real coarse node still owns exactly the atoms of its own fragment (multiset of element + H '
         'count, fragment name, heavy-atom count); virtual nodes own no atoms. Fault half: the same insertion with order '
         '1-4 must raise SyntaxError. Hierarchies whose base graph gets a fragment-less node named like a fragment that only a deeper block defines (blocks are separate name spaces). Order-0 edges written through the multiplier syntax: the molecule as n unconnected copies '
